@@ -282,12 +282,13 @@ mod live {
 
     /// a TLS client that presents the test certificate number `cert` (0..3: helpers A, B, C; 3..6: the
     /// certificates the fixtures use for a second shard - not known to an MPC server of one shard)
-    pub fn https_client_with_cert(cert: usize) -> Client<HttpsConnector<HttpConnector>, axum::body::Body> {
+    pub fn https_client_with_cert(cert: usize) -> (Client<HttpsConnector<HttpConnector>, axum::body::Body>, CertificateDer<'static>) {
         use crate::sharding::{ShardIndex, ShardedHelperIdentity};
         let id = ShardedHelperIdentity::new(crate::helpers::HelperIdentity::make_three()[cert % 3], ShardIndex::from((cert / 3) as u32));
         let (mut cert_pem, mut key_pem) = crate::net::test::get_test_certificate_and_key(id);
         let certs: Vec<CertificateDer<'static>> = rustls_pemfile::certs(&mut cert_pem).flatten().collect();
         let key = rustls_pemfile::private_key(&mut key_pem).unwrap().unwrap();
+        let der = certs[0].clone();
         let config = rustls::ClientConfig::builder_with_provider(Arc::clone(&crate::net::CRYPTO_PROVIDER))
             .with_safe_default_protocol_versions()
             .unwrap()
@@ -298,7 +299,7 @@ mod live {
         let mut http = HttpConnector::new();
         http.enforce_http(false);
         let https = HttpsConnector::<HttpConnector>::from((http, Arc::new(config)));
-        Client::builder(TokioExecutor::new()).pool_timer(TokioTimer::new()).build(https)
+        (Client::builder(TokioExecutor::new()).pool_timer(TokioTimer::new()).build(https), der)
     }
 
     pub fn http_client() -> Client<HttpConnector, axum::body::Body> {
@@ -378,7 +379,7 @@ async fn live_matrix(r: &mut Report) {
                         }
                         let body = if route == "step" { vec![cert as u8 + 1, 7] } else { Vec::new() };
                         let req = b.body(Body::from(body)).unwrap();
-                        let st = tokio::time::timeout(std::time::Duration::from_secs(20), live::https_client_with_cert(cert).request(req)).await.map(|x| x.map(|x| x.status()));
+                        let st = tokio::time::timeout(std::time::Duration::from_secs(20), live::https_client_with_cert(cert).0.request(req)).await.map(|x| x.map(|x| x.status()));
                         if known && route == "step" && matches!(st, Ok(Ok(x)) if x == StatusCode::OK) {
                             // the records must have been filed under the identity of the certificate, whatever
                             // the header claims: they can be received from that helper (and only from it)
@@ -451,6 +452,151 @@ async fn live_matrix(r: &mut Report) {
     }
 }
 
+
+// ---- configuration matrix ------------------------------------------------------------------------------
+// Every server configuration {HTTPS disabled or not} x {TLS material present or not} x {which peers of
+// the network have a certificate configured} for both server flavours, started as a second listener of
+// the real server object; every kind of caller {plain HTTP, TLS without a certificate, TLS with each of
+// the six test certificates} x {no identity header, identity header}. A peer route may only be served
+// when (HTTPS explicitly disabled and the header present) or (TLS and the caller's certificate is the
+// one configured for some peer). A server that refuses to start, or a connection that cannot be
+// established, is a refusal.
+
+async fn config_matrix<F: crate::net::ConnectionFlavor>(flavor: &'static str, base: &TestServer<F>, header_values: &[&'static str], subsets: &[u8], r: &mut Report) {
+    use std::panic::AssertUnwindSafe;
+
+    use futures::FutureExt;
+
+    use crate::executor::IpaRuntime;
+    let qid = QueryId.as_ref().to_string();
+    // the six test certificates in DER form, as the clients present them
+    let ders: Vec<rustls_pki_types::CertificateDer<'static>> = (0..6).map(|c| live::https_client_with_cert(c).1).collect();
+    let npeers = base.server.network_config.peers.len();
+    for disable_https in [false, true] {
+        for tls_present in [true, false] {
+            for &missing in subsets {
+                let mut config = base.server.config.clone();
+                config.port = None;
+                config.disable_https = disable_https;
+                if !tls_present {
+                    config.tls = None;
+                }
+                if config.tls.is_none() && tls_present {
+                    // the base server was built without TLS material: nothing to vary
+                    continue;
+                }
+                let mut network_config = base.server.network_config.clone();
+                for p in 0..npeers {
+                    if missing & (1 << p) != 0 {
+                        network_config.peers[p].certificate = None;
+                    }
+                }
+                let configured: Vec<Option<rustls_pki_types::CertificateDer<'static>>> = network_config.peers.iter().map(|p| p.certificate.clone()).collect();
+                let name = format!("{flavor}:disable_https={disable_https}:tls={}:peers-without-certificate={missing:#05b}", if tls_present { "present" } else { "absent" });
+                r.inc("server_configurations");
+                // direct lookup: no certificate is no identity; a certificate is the identity of the peer it is configured for
+                {
+                    let got = network_config.identify_cert(None);
+                    r.inc("evaluations");
+                    if got.is_some() {
+                        r.violation(&format!("auth:config:no-certificate-identified:{flavor}"), &format!("{name}: identify_cert(None) = {got:?}"), json!({"part":"auth","arm":"config","flavor":flavor,"missing":missing}));
+                    }
+                    for (c, der) in ders.iter().enumerate() {
+                        let want = configured.iter().position(|x| x.as_ref() == Some(der)).map(|p| network_config.identities[p]);
+                        let got = network_config.identify_cert(Some(der));
+                        r.inc("evaluations");
+                        r.inc("distinct_nontrivial");
+                        if got != want {
+                            r.violation(&format!("auth:config:certificate-lookup:{flavor}"), &format!("{name}: identify_cert(test certificate {c}) = {got:?}, expected {want:?}"), json!({"part":"auth","arm":"config","flavor":flavor,"missing":missing,"cert":c}));
+                        }
+                    }
+                }
+                let server = super::super::IpaHttpServer::<F> { config, network_config, router: base.server.router.clone() };
+                let started = AssertUnwindSafe(server.start_on(&IpaRuntime::current(), None, ())).catch_unwind().await;
+                let Ok((addr, _handle)) = started else {
+                    r.inc("configurations_refusing_to_start");
+                    r.set("config_outcomes", format!("{name}:refuses-to-start"));
+                    if disable_https || (tls_present && missing == 0) {
+                        r.machinery(&format!("{name}: the server did not start"));
+                    }
+                    continue;
+                };
+                // callers
+                #[derive(Clone, Copy, Debug)]
+                enum Caller {
+                    Plain,
+                    TlsAnonymous,
+                    TlsCert(usize),
+                }
+                let mut callers = vec![Caller::Plain, Caller::TlsAnonymous];
+                callers.extend((0..6).map(Caller::TlsCert));
+                for caller in callers {
+                    for header in std::iter::once(None).chain(header_values.iter().map(|h| Some(*h))) {
+                        let mut routes = vec![("step", Method::POST, format!("/query/{qid}/step/gate-cfg")), ("prepare", Method::POST, format!("/query/{qid}")), ("echo", Method::GET, "/echo".to_string())];
+                        if flavor == "shard" {
+                            routes.push(("complete", Method::GET, format!("/query/{qid}/complete")));
+                        }
+                        for (route, method, path) in routes {
+                            let scheme = if matches!(caller, Caller::Plain) { "http" } else { "https" };
+                            let uri = format!("{scheme}://localhost:{}{path}?query_type=test-multiply&field_type=Fp31&size=1", addr.port());
+                            let mut b = hyper::Request::builder().method(method.clone()).uri(uri).header("content-type", "application/json");
+                            if let Some(hv) = header {
+                                b = b.header(F::identity_header(), hv);
+                            }
+                            let req = b.body(Body::from(Vec::new())).unwrap();
+                            let t = std::time::Duration::from_secs(20);
+                            let st = match caller {
+                                Caller::Plain => tokio::time::timeout(t, live::http_client().request(req)).await.map(|x| x.map(|x| x.status())),
+                                Caller::TlsAnonymous => tokio::time::timeout(t, live::https_client().request(req)).await.map(|x| x.map(|x| x.status())),
+                                Caller::TlsCert(c) => tokio::time::timeout(t, live::https_client_with_cert(c).0.request(req)).await.map(|x| x.map(|x| x.status())),
+                            };
+                            r.inc("evaluations");
+                            r.inc("distinct_nontrivial");
+                            r.inc("config_matrix_requests");
+                            let st = match st {
+                                Ok(Ok(s)) => s,
+                                Ok(Err(_)) => {
+                                    r.inc("config_matrix_connection_refused");
+                                    continue;
+                                }
+                                Err(_) => {
+                                    r.machinery(&format!("{name}: request by {caller:?} timed out"));
+                                    continue;
+                                }
+                            };
+                            let may_be_served = match caller {
+                                Caller::Plain | Caller::TlsAnonymous => disable_https && header.is_some(),
+                                Caller::TlsCert(c) => (disable_https && header.is_some()) || (!disable_https && configured.iter().any(|x| x.as_ref() == Some(&ders[c]))),
+                            };
+                            r.set("config_outcomes", format!("{name}:{caller:?}:header={}:{route}:{st}", header.is_some()));
+                            if route == "echo" {
+                                if st == StatusCode::UNAUTHORIZED {
+                                    r.violation(&format!("auth:config:collector-route-closed:{flavor}"), &format!("{name}, caller {caller:?}, header {header:?}: GET /echo answered 401"), json!({"part":"auth","arm":"config","flavor":flavor,"disable_https":disable_https,"tls":tls_present,"missing":missing}));
+                                }
+                            } else if st != StatusCode::UNAUTHORIZED && !may_be_served {
+                                let why = if !disable_https && header.is_some() && !matches!(caller, Caller::TlsCert(_)) {
+                                    "the identity header was honoured although HTTPS is not disabled"
+                                } else if matches!(caller, Caller::TlsCert(_)) {
+                                    "the certificate is not the one configured for any peer"
+                                } else {
+                                    "the caller carries no verified identity"
+                                };
+                                r.violation(
+                                    &format!("auth:config:peer-route-open:{flavor}:{route}:{}", match caller { Caller::Plain => "plain", Caller::TlsAnonymous => "tls-anonymous", Caller::TlsCert(_) => "tls-unknown-certificate" }),
+                                    &format!("{name}, caller {caller:?}, identity header {header:?}: {method} {path} answered {st} ({why})"),
+                                    json!({"part":"auth","arm":"config","flavor":flavor,"disable_https":disable_https,"tls":tls_present,"missing":missing,"caller":format!("{caller:?}"),"header":header,"route":route}),
+                                );
+                            } else if st == StatusCode::UNAUTHORIZED && may_be_served && matches!(caller, Caller::TlsCert(_)) && !disable_https {
+                                r.violation(&format!("auth:config:configured-certificate-refused:{flavor}:{route}"), &format!("{name}, caller {caller:?}: {method} {path} answered 401 although the certificate is configured for a peer"), json!({"part":"auth","arm":"config","flavor":flavor,"missing":missing,"caller":format!("{caller:?}"),"route":route}));
+                            }
+                        }
+                    }
+                }
+            }
+        }
+    }
+}
+
 #[test]
 fn run() {
     let mut r = Report::new("C20");
@@ -459,6 +605,11 @@ fn run() {
         rt.block_on(async {
             route_tables(&mut r).await;
             live_matrix(&mut r).await;
+            let subsets: &[u8] = if common::thorough() { &[0, 1, 2, 3, 4, 5, 6, 7] } else { &[0, 1, 4, 7] };
+            let mpc: TestServer<Helper> = TestServerBuilder::<Helper>::default().with_request_handler(permissive::<HelperIdentity>()).build().await;
+            config_matrix::<Helper>("mpc", &mpc, &["A", "C"], subsets, &mut r).await;
+            let shard: TestServer<Shard> = TestServerBuilder::<Shard>::default().with_request_handler(permissive::<ShardIndex>()).build().await;
+            config_matrix::<Shard>("shard", &shard, &["0", "1"], subsets, &mut r).await;
         })
     }));
     if let Err(p) = res {
